@@ -662,6 +662,63 @@ fn run_adjgroup(in_cmd: bool, unit: &Value, only: Option<&[Tok]>, ctx: &mut Ctx)
     });
 }
 
+// ------------------------------------------------------------------------------------------
+// an argument backed by an environment variable that IS set: its name has not been given on the
+// line, so it is still offered
+// ------------------------------------------------------------------------------------------
+const ENV14: &str = "BPAFMC_C14";
+fn envarg_opts(k: usize) -> Opts {
+    let key = P::Arg { names: Names::long("key").env(ENV14), ty: Ty::Os, adjacent: false, metavar: "KEY".into() };
+    let key = match k {
+        0 => key,
+        1 => key.opt(),
+        _ => key.many(),
+    };
+    Opts::new(P::Seq(vec![key, P::Switch(Names::long("keep"))]))
+}
+
+fn run_envarg(k: usize, unit: &Value, only: Option<&[Tok]>, ctx: &mut Ctx) {
+    let p = match build_checked(&envarg_opts(k)) {
+        Ok(p) => p,
+        Err(_) => return,
+    };
+    for set in [false, true] {
+        if set {
+            std::env::set_var(ENV14, "from-env");
+        } else {
+            std::env::remove_var(ENV14);
+        }
+        for pre in [vec![], vec!["--keep"]] {
+            for typed in ["", "-", "--", "--k", "--ke", "--key"] {
+                let mut argv: Vec<Tok> = pre.iter().map(|s| Tok::s(s)).collect();
+                argv.push(Tok::s(typed));
+                if only.map_or(false, |o| o != argv.as_slice()) {
+                    continue;
+                }
+                ctx.begin_case(|| json!({"argv": argv, "set": set}));
+                ctx.s.evaluations += 1;
+                ctx.s.states += 1;
+                let text = match run_comp(&p, &argv, 0, None) {
+                    Outcome::Completion(t) => t,
+                    _ => continue,
+                };
+                let rows = parse_rows(&text, typed);
+                let offered = rows.substs.iter().any(|s| s == "--key") || (typed == "--key" && (rows.echo_only || rows.substs.is_empty()));
+                if offered {
+                    ctx.s.nontrivial += 1;
+                    ctx.count("env-backed-names-judged");
+                } else {
+                    let mut sig = BTreeMap::new();
+                    sig.insert("clause".to_string(), "every-applicable-visible-name-offered".to_string());
+                    sig.insert("def".to_string(), format!("env-backed argument (variable {})", if set { "set" } else { "unset" }));
+                    ctx.violation(Violation { property: "C14".into(), rule: "every-applicable-visible-name-offered".into(), sig, unit: unit.clone(), case: json!({"argv": argv, "set": set}), expected: "--key offered (visible, matches, not given on the line)".into(), observed: text.chars().take(300).collect(), size: argv.len() * 1000 });
+                }
+            }
+        }
+    }
+    std::env::remove_var(ENV14);
+}
+
 impl Check for C14 {
     fn id(&self) -> &'static str {
         "C14"
@@ -727,6 +784,9 @@ impl Check for C14 {
                 out.push(serde_json::to_value(Unit { level: l, len: tier.pick(3, 4), completers: vec![], fallback_with: false, decor: 0, hidden_cmds: vec![], completer_outer: false, shell_deco: false, untitled_groups: 0 }).unwrap());
             }
         }
+        for k in 0..3 {
+            out.push(json!({"envarg": k}));
+        }
         out.push(json!({"adjgroup": false}));
         out.push(json!({"adjgroup": true}));
         out.push(json!({"altpos": false}));
@@ -740,6 +800,10 @@ impl Check for C14 {
         }
         if let Some(b) = unit.get("adjgroup") {
             run_adjgroup(b.as_bool() == Some(true), unit, None, ctx);
+            return;
+        }
+        if let Some(k) = unit.get("envarg").and_then(|k| k.as_u64()) {
+            run_envarg(k as usize, unit, None, ctx);
             return;
         }
         let u: Unit = serde_json::from_value(unit.clone()).unwrap();
@@ -807,6 +871,11 @@ impl Check for C14 {
             run_adjgroup(b.as_bool() == Some(true), unit, Some(&argv), ctx);
             return;
         }
+        if let Some(k) = unit.get("envarg").and_then(|k| k.as_u64()) {
+            let argv: Vec<Tok> = serde_json::from_value(case["argv"].clone()).unwrap_or_default();
+            run_envarg(k as usize, unit, Some(&argv), ctx);
+            return;
+        }
         let u: Unit = serde_json::from_value(unit.clone()).unwrap();
         let argv: Vec<Tok> = serde_json::from_value(case["argv"].clone()).unwrap_or_default();
         if let Ok(p) = build_checked(&build_unit(&u)) {
@@ -815,7 +884,7 @@ impl Check for C14 {
         }
     }
     fn rule(&self) -> String {
-        "definitions = conventional levels (<=2 named items of all 10 kinds, naming styles incl. aliases; tails none / positionals / command trees of depth 3 with aliases, optional and defaulted choices); every third definition hides its first item, every fourth writes its defaults with fallback_with, every fifth wraps one of its sub-commands in hide(), repeated items are written many() / some(msg).optional() / many().catch() in rotation (optional items with and without catch()), a few use non-ASCII names, every second attaches an echoing completer (input+\"1\", input+\"2\") to every argument - half of them on the primitive, half above its optional / many / fallback wrapper; inputs = every vector of the token tree (incl. a non-UTF-8 word) as the already typed part x every typed last word from {empty, -, --, every prefix of every long name, every short name, --name=, --name=pre, command prefixes, plain words}; revision 0 through set_comp and (for short lines) through the --bpaf-complete-rev=0 marker; (a) the outcome is completion output for every line; (b) every candidate is the preferred spelling of a visible matching name of the active or an enclosing level, a value of the completer of the item being typed, or a metavariable placeholder - never a hidden item or a name below a command not entered; (c) on a fresh prefix every visible name of the active level that extends it and is not already given (single-use) is offered, commands when no word precedes, completer values for the item being typed; the active level / given set / pending value come from a reference scan of the typed part; right of `--` no option or command name may be offered whatever was typed; a choice between a positional and a named item (FILE | --list) behind a switch and inside a command must offer the name on every fresh prefix of it; lines the scan cannot classify (unknown names, clusters, separator) are only held to (a); state = (definition, line); every seventh definition puts its named items into group_help groups with an empty or blank title; switches beside an optional adjacent group (--point -x X), top level and inside a command: after every complete line of <=4 items every switch not given yet that extends the typed word is offered; sibling commands where the one-letter alias of one is the first letter of the other's name; a command holding an item with the names of an item of the enclosing level".into()
+        "definitions = conventional levels (<=2 named items of all 10 kinds, naming styles incl. aliases; tails none / positionals / command trees of depth 3 with aliases, optional and defaulted choices); every third definition hides its first item, every fourth writes its defaults with fallback_with, every fifth wraps one of its sub-commands in hide(), repeated items are written many() / some(msg).optional() / many().catch() in rotation (optional items with and without catch()), a few use non-ASCII names, every second attaches an echoing completer (input+\"1\", input+\"2\") to every argument - half of them on the primitive, half above its optional / many / fallback wrapper; inputs = every vector of the token tree (incl. a non-UTF-8 word) as the already typed part x every typed last word from {empty, -, --, every prefix of every long name, every short name, --name=, --name=pre, command prefixes, plain words}; revision 0 through set_comp and (for short lines) through the --bpaf-complete-rev=0 marker; (a) the outcome is completion output for every line; (b) every candidate is the preferred spelling of a visible matching name of the active or an enclosing level, a value of the completer of the item being typed, or a metavariable placeholder - never a hidden item or a name below a command not entered; (c) on a fresh prefix every visible name of the active level that extends it and is not already given (single-use) is offered, commands when no word precedes, completer values for the item being typed; the active level / given set / pending value come from a reference scan of the typed part; right of `--` no option or command name may be offered whatever was typed; a choice between a positional and a named item (FILE | --list) behind a switch and inside a command must offer the name on every fresh prefix of it; lines the scan cannot classify (unknown names, clusters, separator) are only held to (a); state = (definition, line); every seventh definition puts its named items into group_help groups with an empty or blank title; switches beside an optional adjacent group (--point -x X), top level and inside a command: after every complete line of <=4 items every switch not given yet that extends the typed word is offered; sibling commands where the one-letter alias of one is the first letter of the other's name; a command holding an item with the names of an item of the enclosing level; an argument backed by an environment variable (required / optional / many), variable unset and set: its name is offered on every fresh prefix".into()
     }
     fn bounds(&self, tier: Tier) -> Value {
         json!({"typed_part_length": tier.pick(2, 3), "typed_words": "18 fixed + all prefixes of all names"})
